@@ -22,26 +22,26 @@ import (
 )
 
 type Report struct {
-	Repo        string        `json:"repo"`
-	Functions   int           `json:"functions"`
-	Helpers     []string      `json:"helpers"`
-	Entries     []EntryReport `json:"entries"`
-	Diagnostics []Diag        `json:"diagnostics"`
-	NotSingle   []Diag        `json:"not_single_section"`
-	Errors      []string      `json:"errors"`
-	Notes       []string      `json:"notes"`
-	LockSites   []LockSite    `json:"lock_sites"`
-	AccessLines []string      `json:"access_lines"` // file:line of every guarded-field access (for attributing race reports)
+	Repo        string         `json:"repo"`
+	Functions   int            `json:"functions"`
+	Helpers     []string       `json:"helpers"`
+	Entries     []EntryReport  `json:"entries"`
+	Diagnostics []Diag         `json:"diagnostics"`
+	NotSingle   []Diag         `json:"not_single_section"`
+	Errors      []string       `json:"errors"`
+	Notes       []string       `json:"notes"`
+	LockSites   []LockSite     `json:"lock_sites"`
+	AccessLines []string       `json:"access_lines"` // file:line of every guarded-field access (for attributing race reports)
 	Counts      map[string]int `json:"counts"`
 }
 
 type EntryReport struct {
-	Name    string `json:"name"`
-	Kind    string `json:"kind"`
-	Pos     string `json:"pos"`
-	IR      string `json:"ir"`
-	Trivial bool   `json:"trivial"`
-	Store   bool   `json:"store_method"`
+	Name    string   `json:"name"`
+	Kind    string   `json:"kind"`
+	Pos     string   `json:"pos"`
+	IR      string   `json:"ir"`
+	Trivial bool     `json:"trivial"`
+	Store   bool     `json:"store_method"`
 	Reads   []string `json:"reads"`  // field labels read
 	Writes  []string `json:"writes"` // field labels written
 	Locks   []string `json:"locks"`  // mutex labels acquired
@@ -116,7 +116,7 @@ func translate(repo string, overlay map[string]string, mem map[string][]byte) (*
 	defer func() { rep.AccessLines = keys(lines) }()
 	sort.SliceStable(t.entries, func(i, j int) bool { return t.entries[i].Name < t.entries[j].Name })
 	for _, fi := range t.order {
-		if fi.isHelper() {
+		if fi.isHelper() && !(fi.directCalls == 0 && fi.Recv != "") {
 			rep.Helpers = append(rep.Helpers, fi.Name)
 		}
 	}
@@ -215,6 +215,23 @@ func main() {
 		fmt.Printf("lock translator: %d construct(s) touching a mutex or a guarded field could not be classified (failing closed):\n", len(t.errs))
 		for _, e := range t.errs {
 			fmt.Println("  " + e)
+		}
+		if *out != "" {
+			// no IR for this tree: whatever an earlier run left must not be mistaken for it, and the obligations
+			// cannot be discharged
+			os.MkdirAll(*out, 0o755)
+			for _, ext := range []string{".vo", ".vos", ".vok", ".glob"} {
+				os.Remove(filepath.Join(*out, "LockGen"+ext))
+			}
+			var b strings.Builder
+			b.WriteString("(* GENERATED by translator/lock: the translator FAILED CLOSED on the current source, there is no IR.\n")
+			for _, e := range t.errs {
+				b.WriteString("   " + strings.ReplaceAll(strings.ReplaceAll(e, "(*", "( *"), "*)", "* )") + "\n")
+			}
+			b.WriteString("*)\nFrom Relay Require Import Base.Prelude Model.LockIR.\n")
+			b.WriteString("Definition translation_succeeded := false.\n")
+			b.WriteString("Example gen_well_locked : translation_succeeded = true.\nProof. vm_compute. reflexivity. Qed.\n")
+			os.WriteFile(filepath.Join(*out, "LockGen.v"), []byte(b.String()), 0o644)
 		}
 		os.Exit(1)
 	}
